@@ -81,7 +81,10 @@ pub fn run(rep: &Report) -> i32 {
     rep.set("wide_call_programs", json!(wide.len()));
     rep.transition(wide.len() as u64);
     let uni = gen::universe_a();
-    let all: Vec<(Expr, Ty)> = deep.into_iter().chain(wide).collect();
+    let lits = wide_literal_terms();
+    rep.set("wide_literal_programs", json!(lits.len()));
+    rep.transition(lits.len() as u64);
+    let all: Vec<(Expr, Ty)> = deep.into_iter().chain(wide).chain(lits).collect();
     par_for(&all, rep, 4, |_, (e, ty)| {
         drive::DUMMY.with(|env| check_term(rep, e, ty, &uni, &wide_fns, env, &forms, &seen));
     });
@@ -178,6 +181,31 @@ pub fn wide_call_terms(quick: bool) -> (Vec<(Expr, Ty)>, BTreeMap<String, FnDef>
         }
     }
     (out, fns)
+}
+
+/// Integer constants of every width in all three notations, with values whose bytes / 64-bit words all differ
+/// (so that any reordering of digits, bytes or words is visible), plus the all-ones and single-bit patterns.
+pub fn wide_literal_terms() -> Vec<(Expr, Ty)> {
+    use crate::big::Big;
+    let mut out = vec![];
+    for &w in &[8u16, 16, 32, 64, 128, 256] {
+        let nbytes = (w / 8) as usize;
+        let asym = Big::from_bytes(&(0..nbytes).map(|i| (0x11 + 0x0d * i as u32) as u8 ^ if i % 2 == 0 { 0x80 } else { 0 }).collect::<Vec<u8>>());
+        let ones = Big::pow2(w as usize).sub(&Big::from_u128(1));
+        let low_word = Big::from_u128(0xfedc_ba98_7654_3210u64 as u128);
+        let top_bit = Big::pow2(w as usize - 1);
+        let mut vals = vec![asym, ones, top_bit.clone(), top_bit.add(&Big::from_u128(1))];
+        if w > 64 {
+            vals.push(low_word);
+        }
+        for v in vals {
+            let ty = Ty::U(w);
+            out.push((Expr::Lit(Lit::Dec(v.to_decimal())), ty.clone()));
+            out.push((Expr::Lit(Lit::Bin(v.to_bin(w as usize))), ty.clone()));
+            out.push((Expr::Lit(Lit::Hex(v.to_hex((w / 4) as usize))), ty.clone()));
+        }
+    }
+    out
 }
 
 fn run_json(text: &str, witness: &[(String, Val, Ty)], debug: bool, expect: &str, observed: &str) -> serde_json::Value {
